@@ -405,7 +405,7 @@ func c09GettersAndBatches(c *fw.Ctx) {
 			cas := c09Case{Kind: "getter", Ctor: cc.Name, Value: v.Label}
 			es, ok := c09Get(c, s, [][2]uint64{{cc.Acc.ID, ch.ID}}, cas, "getter")
 			if ok && !c09Same(es[0].Value, v.V) {
-				c.Report("getter-value-differs/"+ch.Format+"/"+permKey(ch), fmt.Sprintf("%s: the application's read callback returned %v, the controller read %v", cc.Name, trunc([]byte(fmt.Sprint(v.V)), 40), trunc([]byte(fmt.Sprint(es[0].Value)), 40)), cas)
+				c.Report("getter-value-differs/"+ch.Format+"/"+permKey(ch), fmt.Sprintf("%s: the application's read callback returned %v, the controller read %v", cc.Name, string(trunc([]byte(fmt.Sprint(v.V)), 40)), string(trunc([]byte(fmt.Sprint(es[0].Value)), 40))), cas)
 				break
 			}
 			if vi == len(vals)-1 {
@@ -446,14 +446,14 @@ func c09GettersAndBatches(c *fw.Ctx) {
 			for cc, v := range want {
 				got := cc.Ch.Value
 				if !reflect.DeepEqual(got, v) {
-					c.Report("batch-write-differs/"+cc.Ch.Format, fmt.Sprintf("PUT with %d entries: %s was written %v but the application sees %v", k, cc.Name, trunc([]byte(fmt.Sprint(v)), 40), trunc([]byte(fmt.Sprint(got)), 40)), cas)
+					c.Report("batch-write-differs/"+cc.Ch.Format, fmt.Sprintf("PUT with %d entries: %s was written %v but the application sees %v", k, cc.Name, string(trunc([]byte(fmt.Sprint(v)), 40)), string(trunc([]byte(fmt.Sprint(got)), 40))), cas)
 					break
 				}
 				s.mu.Lock()
 				last := s.last[cc.Ch]
 				s.mu.Unlock()
 				if !reflect.DeepEqual(last, v) {
-					c.Report("batch-callback-differs/"+cc.Ch.Format, fmt.Sprintf("PUT with %d entries: the remote-update callback of %s received %v instead of %v", k, cc.Name, trunc([]byte(fmt.Sprint(last)), 40), trunc([]byte(fmt.Sprint(v)), 40)), cas)
+					c.Report("batch-callback-differs/"+cc.Ch.Format, fmt.Sprintf("PUT with %d entries: the remote-update callback of %s received %v instead of %v", k, cc.Name, string(trunc([]byte(fmt.Sprint(last)), 40)), string(trunc([]byte(fmt.Sprint(v)), 40))), cas)
 					break
 				}
 			}
@@ -594,7 +594,7 @@ func c09Values1(c *fw.Ctx, part, parts int) {
 				changed := !reflect.DeepEqual(prev, v.V) || !ch.IsReadable()
 				if changed {
 					if calls != 1 || !reflect.DeepEqual(last, v.V) {
-						c.Report("remote-callback/"+sig, fmt.Sprintf("%s: a changing controller write of %s invoked the remote-update callback %d times with %v", cc.Name, trunc(jv, 40), calls, trunc([]byte(fmt.Sprint(last)), 40)), cas)
+						c.Report("remote-callback/"+sig, fmt.Sprintf("%s: a changing controller write of %s invoked the remote-update callback %d times with %v", cc.Name, trunc(jv, 40), calls, string(trunc([]byte(fmt.Sprint(last)), 40))), cas)
 						continue
 					}
 				}
